@@ -474,7 +474,7 @@ func (r *rw) selectStmt(s *ast.SelectStmt, label *ast.Ident) ast.Stmt {
 		var caseVal ast.Expr
 		if c.Comm == nil {
 			hasDefault = true
-			caseVal = &ast.UnaryExpr{Op: token.SUB, X: &ast.BasicLit{Kind: token.INT, Value: "1"}}
+			caseVal = nil // select's default becomes the switch's default (index -1)
 		} else {
 			caseVal = &ast.BasicLit{Kind: token.INT, Value: strconv.Itoa(k)}
 			k++
@@ -526,7 +526,15 @@ func (r *rw) selectStmt(s *ast.SelectStmt, label *ast.Ident) ast.Stmt {
 		}
 		r.walkStmts(&c.Body)
 		body = append(body, c.Body...)
-		sw.Body.List = append(sw.Body.List, &ast.CaseClause{List: []ast.Expr{caseVal}, Body: body})
+		cl := &ast.CaseClause{Body: body}
+		if caseVal != nil {
+			cl.List = []ast.Expr{caseVal}
+		}
+		sw.Body.List = append(sw.Body.List, cl)
+	}
+	if !hasDefault {
+		// keeps the statement terminating when every case terminates (as the select was)
+		sw.Body.List = append(sw.Body.List, &ast.CaseClause{Body: []ast.Stmt{&ast.ExprStmt{X: call(ast.NewIdent("panic"), &ast.BasicLit{Kind: token.STRING, Value: `"vrt: select index out of range"`})}}})
 	}
 	hd := "false"
 	if hasDefault {
